@@ -18,8 +18,22 @@ def test_key(I, kind, id):
     keys = ctx.ghost.setdefault('testkeys', {})
     k = (kind, id)
     if k not in keys:
-        priv = ctx.alloc(StructV([('key', kind, id)]), 'testkey')
-        pub = ctx.alloc(StructV([('pub', kind, id)]), 'testpub')
+        nrec0 = len(ctx.nondets)
+        if kind == 0 and 'crypto/rsa.PrivateKey' in I.prog.types:
+            T, PT = 'crypto/rsa.PrivateKey', 'crypto/rsa.PublicKey'
+            n1 = ctx.alloc(StructV([('N', kind, id)]), 'bigN')
+            n2 = ctx.alloc(StructV([('N', kind, id)]), 'bigN')
+            ctx.ghost.setdefault('bigints', {})[n1.cell] = ('N', kind, id)
+            ctx.ghost.setdefault('bigints', {})[n2.cell] = ('N', kind, id)
+            pubv = ctx.fresh(PT, 'testpub').with_field(I.prog.field_index(PT, 'N'), n2).with_field(I.prog.field_index(PT, 'E'), 65537)
+            pubin = ctx.fresh(PT, 'testpub').with_field(I.prog.field_index(PT, 'N'), n1).with_field(I.prog.field_index(PT, 'E'), 65537)
+            privv = ctx.fresh(T, 'testkey').with_field(I.prog.field_index(T, 'PublicKey'), pubin)
+            priv = ctx.alloc(privv, 'testkey')
+            pub = ctx.alloc(pubv, 'testpub')
+        else:
+            priv = ctx.alloc(StructV([('key', kind, id)]), 'testkey')
+            pub = ctx.alloc(StructV([('pub', kind, id)]), 'testpub')
+        del ctx.nondets[nrec0:]
         certv = None
         nrec = len(ctx.nondets)
         if 'crypto/x509.Certificate' in I.prog.types:
@@ -112,6 +126,309 @@ def x509_parse(I, args, ins):
         del ctx.nondets[nrec:]
         fi = I.prog.field_index('crypto/x509.Certificate', 'Raw')
         v = v.with_field(fi, sl)
+        # the public key of an arbitrary certificate: an RSA key unrelated to the test keys, or a non-RSA key
+        if ctx.choose(2, 'parsedcert-keytype') == 0 and 'crypto/rsa.PublicKey' in I.prog.types:
+            PT = 'crypto/rsa.PublicKey'
+            nn = ctx.alloc(StructV([('N', 'other', len(cache))]), 'bigN')
+            ctx.ghost.setdefault('bigints', {})[nn.cell] = ('N', 'other', len(cache))
+            pk = ctx.alloc(ctx.fresh(PT, 'otherpub').with_field(I.prog.field_index(PT, 'N'), nn), 'otherpub')
+            pub = Iface('*crypto/rsa.PublicKey', pk)
+        else:
+            pub = Iface('*crypto/ecdsa.PublicKey', ctx.alloc(StructV([]), 'ecpub'))
+        v = v.with_field(I.prog.field_index('crypto/x509.Certificate', 'PublicKey'), pub)
+        del ctx.nondets[nrec:]
         r = TupleV((ctx.alloc(v, 'parsedcert'), None))
     cache[key] = r
     return r
+
+
+# ------------------------------------------------------------------ symbolic crypto (DESIGN.md 3.2)
+# Block ciphers, CBC, GCM, RSA key transport and hashes are uninterpreted: fresh output bytes plus
+#  (i) the documented panic preconditions, (ii) length laws, (iii) Dec(Enc(x)) = x under equal key/iv/nonce/hash.
+
+def _obj(I, dyn, info, table):
+    ctx = I.ctx
+    p = ctx.alloc(StructV([]), dyn)
+    ctx.ghost.setdefault(table, {})[p.cell] = info
+    return Iface(dyn, p)
+
+
+def _info(I, v, table):
+    ctx = I.ctx
+    v = ctx.force(v)
+    if isinstance(v, Iface):
+        v = ctx.force(v.val)
+    if isinstance(v, Ptr):
+        return ctx.ghost.get(table, {}).get(v.cell)
+    return None
+
+
+def _same(a, b):
+    """Syntactic equality of two element lists (same terms)."""
+    if len(a) != len(b):
+        return False
+    for x, y in zip(a, b):
+        if isinstance(x, int) and isinstance(y, int):
+            if x != y:
+                return False
+        elif str(x) != str(y):
+            return False
+    return True
+
+
+def _fresh_bytes(I, n, tag):
+    ctx = I.ctx
+    return [ctx.fresh_int('%s[%d]' % (tag, i), 'uint8') for i in range(n)]
+
+
+def _write(I, sl, elems):
+    ctx = I.ctx
+    arr = list(ctx.load(sl.base))
+    arr[sl.off:sl.off + len(elems)] = elems
+    ctx.store_(sl.base, tuple(arr))
+
+
+for _d in ('*verif.block', '*verif.cbc', '*verif.gcm', '*verif.hash'):
+    OPAQUE_IMPLEMENTS[_d] = {'crypto/cipher.Block', 'crypto/cipher.BlockMode', 'crypto/cipher.AEAD', 'hash.Hash', 'io.Writer'}
+
+
+def _new_cipher(alg, sizes, bs):
+    def f(I, args, ins):
+        ctx = I.ctx
+        key = ctx.force(args[0])
+        n = I.length(key)
+        if n not in sizes:
+            return TupleV((None, ctx.new_error(alg, msg='crypto/%s: invalid key size %d' % (alg, n))))
+        return TupleV((_obj(I, '*verif.block', {'alg': alg, 'key': I.slice_elems(key), 'bs': bs}, 'blocks'), None))
+    return f
+
+
+STUBS['crypto/aes.NewCipher'] = _new_cipher('aes', (16, 24, 32), 16)
+STUBS['crypto/des.NewCipher'] = _new_cipher('des', (8,), 8)
+STUBS['crypto/des.NewTripleDESCipher'] = _new_cipher('3des', (24,), 8)
+
+
+def _block_size(I, recv, args, ins):
+    return I.ctx.ghost['blocks'][recv.cell]['bs']
+
+
+INVOKE_STUBS[('*verif.block', 'BlockSize')] = _block_size
+
+
+def _new_cbc(direction):
+    def f(I, args, ins):
+        ctx = I.ctx
+        blk = _info(I, args[0], 'blocks')
+        iv = ctx.force(args[1])
+        if blk is None:
+            raise Inconclusive('CBC over an unmodelled block cipher')
+        if I.length(iv) != blk['bs']:
+            raise GoPanic('explicit', ctx.cur_pos, Iface('string', 'cipher.NewCBC%s: IV length must equal block size' % direction))
+        return _obj(I, '*verif.cbc', {'block': blk, 'iv': I.slice_elems(iv), 'dir': direction}, 'cbcs')
+    return f
+
+
+STUBS['crypto/cipher.NewCBCEncrypter'] = _new_cbc('Encrypter')
+STUBS['crypto/cipher.NewCBCDecrypter'] = _new_cbc('Decrypter')
+
+
+def _cbc_blocksize(I, recv, args, ins):
+    return I.ctx.ghost['cbcs'][recv.cell]['block']['bs']
+
+
+def _cbc_crypt(I, recv, args, ins):
+    ctx = I.ctx
+    m = ctx.ghost['cbcs'][recv.cell]
+    dst, src = ctx.force(args[0]), ctx.force(args[1])
+    bs = m['block']['bs']
+    if src.len % bs != 0:
+        raise GoPanic('explicit', ctx.cur_pos, Iface('string', 'crypto/cipher: input not full blocks'))
+    if dst.len < src.len:
+        raise GoPanic('explicit', ctx.cur_pos, Iface('string', 'crypto/cipher: output smaller than input'))
+    inp = I.slice_elems(src)
+    table = ctx.ghost.setdefault('cbc_enc', [])
+    if m['dir'] == 'Encrypter':
+        out = _fresh_bytes(I, len(inp), 'cbc')
+        table.append({'alg': m['block']['alg'], 'key': m['block']['key'], 'iv': m['iv'], 'pt': inp, 'ct': out})
+        ctx.event('cbc.encrypt', len(inp))
+    else:
+        out = None
+        for e in table:
+            if e['alg'] == m['block']['alg'] and _same(e['ct'], inp) and _same(e['key'], m['block']['key']) and _same(e['iv'], m['iv']):
+                out = list(e['pt'])
+                break
+        if out is None:
+            out = _fresh_bytes(I, len(inp), 'cbcgarbage')
+        ctx.event('cbc.decrypt', len(inp))
+    if inp:
+        _write(I, dst, out)
+    return None
+
+
+INVOKE_STUBS[('*verif.cbc', 'CryptBlocks')] = _cbc_crypt
+INVOKE_STUBS[('*verif.cbc', 'BlockSize')] = _cbc_blocksize
+
+
+@stub('crypto/cipher.NewGCM')
+def new_gcm(I, args, ins):
+    ctx = I.ctx
+    blk = _info(I, args[0], 'blocks')
+    if blk is None:
+        raise Inconclusive('GCM over an unmodelled block cipher')
+    if blk['bs'] != 16:
+        return TupleV((None, ctx.new_error('gcm', msg='cipher: NewGCM requires 128-bit block cipher')))
+    return TupleV((_obj(I, '*verif.gcm', {'block': blk}, 'gcms'), None))
+
+
+INVOKE_STUBS[('*verif.gcm', 'NonceSize')] = lambda I, recv, args, ins: 12
+INVOKE_STUBS[('*verif.gcm', 'Overhead')] = lambda I, recv, args, ins: 16
+
+
+def _gcm_seal(I, recv, args, ins):
+    ctx = I.ctx
+    g = ctx.ghost['gcms'][recv.cell]
+    dst, nonce, pt, ad = [ctx.force(a) for a in args]
+    if I.length(nonce) != 12:
+        raise GoPanic('explicit', ctx.cur_pos, Iface('string', 'crypto/cipher: incorrect nonce length given to GCM'))
+    p = I.slice_elems(pt)
+    out = _fresh_bytes(I, len(p) + 16, 'gcm')
+    ctx.ghost.setdefault('gcm_enc', []).append({'key': g['block']['key'], 'nonce': I.slice_elems(nonce), 'pt': p, 'ct': out, 'ad': I.slice_elems(ad)})
+    return I.append(dst, I.make_slice(out), ins)
+
+
+def _gcm_open(I, recv, args, ins):
+    ctx = I.ctx
+    g = ctx.ghost['gcms'][recv.cell]
+    dst, nonce, ct, ad = [ctx.force(a) for a in args]
+    if I.length(nonce) != 12:
+        raise GoPanic('explicit', ctx.cur_pos, Iface('string', 'crypto/cipher: incorrect nonce length given to GCM'))
+    c = I.slice_elems(ct)
+    if len(c) < 16:
+        return TupleV((NIL_SLICE, ctx.new_error('gcm', msg='cipher: message authentication failed')))
+    for e in ctx.ghost.get('gcm_enc', []):
+        if _same(e['ct'], c) and _same(e['key'], g['block']['key']) and _same(e['nonce'], I.slice_elems(nonce)) and _same(e['ad'], I.slice_elems(ad)):
+            if not e['pt']:
+                return TupleV((dst, None))
+            return TupleV((I.append(dst, I.make_slice(list(e['pt'])), ins), None))
+    return TupleV((NIL_SLICE, ctx.new_error('gcm', msg='cipher: message authentication failed')))
+
+
+INVOKE_STUBS[('*verif.gcm', 'Seal')] = _gcm_seal
+INVOKE_STUBS[('*verif.gcm', 'Open')] = _gcm_open
+
+
+def _hash_new(name):
+    def f(I, args, ins):
+        return _obj(I, '*verif.hash', {'name': name}, 'hashes')
+    return f
+
+
+for _fn, _nm in (('crypto/sha1.New', 'sha1'), ('crypto/sha256.New', 'sha256'), ('crypto/sha512.New', 'sha512'),
+                 ('golang.org/x/crypto/ripemd160.New', 'ripemd160'), ('crypto/sha512.New384', 'sha384'), ('crypto/md5.New', 'md5')):
+    STUBS[_fn] = _hash_new(_nm)
+
+RSA_CT_LEN = 16   # length of a modelled RSA ciphertext (an abstraction: the real length is the modulus size)
+
+
+def _rsa_key_of(I, p, table):
+    p = I.ctx.force(p)
+    if isinstance(p, Ptr):
+        return I.ctx.ghost.get(table, {}).get(p.cell)
+    return None
+
+
+def _rsa_encrypt(scheme):
+    def f(I, args, ins):
+        ctx = I.ctx
+        if scheme == 'oaep':
+            h, rnd, pub, msg, label = args
+            hname = (_info(I, h, 'hashes') or {}).get('name')
+        else:
+            rnd, pub, msg = args
+            hname = None
+        k = _rsa_key_of(I, pub, 'pubcells')
+        if k is None:
+            raise Inconclusive('RSA encryption to an unmodelled public key')
+        if ctx.choose(2, 'rsa-enc-err') == 1:
+            return TupleV((NIL_SLICE, ctx.new_error('rsa', msg='crypto/rsa: encryption failed')))
+        out = _fresh_bytes(I, RSA_CT_LEN, 'rsact')
+        ctx.ghost.setdefault('rsa_enc', []).append({'scheme': scheme, 'hash': hname, 'key': k, 'pt': I.slice_elems(msg), 'ct': out})
+        return TupleV((I.make_slice(out), None))
+    return f
+
+
+def _rsa_decrypt(scheme):
+    def f(I, args, ins):
+        ctx = I.ctx
+        if scheme == 'oaep':
+            h, rnd, priv, ct, label = args
+            hname = (_info(I, h, 'hashes') or {}).get('name')
+        else:
+            rnd, priv, ct = args
+            hname = None
+        k = _rsa_key_of(I, priv, 'keycells')
+        c = I.slice_elems(ct)
+        for e in ctx.ghost.get('rsa_enc', []):
+            if e['scheme'] == scheme and e['hash'] == hname and e['key'] == k and _same(e['ct'], c):
+                return TupleV((I.make_slice(list(e['pt'])), None))
+        return TupleV((NIL_SLICE, ctx.new_error('rsa', msg='crypto/rsa: decryption error')))
+    return f
+
+
+STUBS['crypto/rsa.EncryptOAEP'] = _rsa_encrypt('oaep')
+STUBS['crypto/rsa.DecryptOAEP'] = _rsa_decrypt('oaep')
+STUBS['crypto/rsa.EncryptPKCS1v15'] = _rsa_encrypt('pkcs1')
+STUBS['crypto/rsa.DecryptPKCS1v15'] = _rsa_decrypt('pkcs1')
+
+
+@stub('(*math/big.Int).Cmp')
+def bigint_cmp(I, args, ins):
+    ctx = I.ctx
+    a, b = ctx.force(args[0]), ctx.force(args[1])
+    ids = ctx.ghost.get('bigints', {})
+    ia = ids.get(a.cell) if isinstance(a, Ptr) else None
+    ib = ids.get(b.cell) if isinstance(b, Ptr) else None
+    if ia is not None and ib is not None:
+        return 0 if ia == ib else 1
+    return ctx.fresh_int('bigcmp', 'int')
+
+
+@stub('encoding/pem.Decode')
+def pem_decode(I, args, ins):
+    """PEM block of a text BEGIN/END-wrapped around base64 X: Bytes = base64decode(X), or no block."""
+    ctx = I.ctx
+    data = ctx.force(args[0])
+    elems = I.slice_elems(data)
+    if not all(isinstance(e, int) for e in elems):
+        raise Inconclusive('pem.Decode of symbolic text')
+    text = ''.join(chr(e) for e in elems)
+    import re as _re
+    m = _re.match(r'^\s*-----BEGIN ([A-Z0-9 ]+)-----\n(.*?)\n?-----END \1-----\s*$', text, _re.S)
+    if m is None:
+        return TupleV((None, data))
+    ptype = m.group(1)
+    inner = ''.join(m.group(2).split())
+    r = I.call_function('(*encoding/base64.Encoding).DecodeString', [None, inner], ins)
+    if ctx.force(r[1]) is not None or inner == '':
+        return TupleV((None, data))
+    T = 'encoding/pem.Block'
+    blk = I.prog.zero(T)
+    blk = blk.with_field(I.prog.field_index(T, 'Type'), ptype).with_field(I.prog.field_index(T, 'Bytes'), r[0])
+    return TupleV((ctx.alloc(blk, 'pem'), NIL_SLICE))
+
+
+# ------------------------------------------------------------------ crypto/rand.Reader: the system random source
+
+def _sysrand_read(I, recv, args, ins):
+    ctx = I.ctx
+    buf = ctx.force(args[0])
+    n = buf.len
+    if n:
+        _write(I, buf, _fresh_bytes(I, n, 'sysrand'))
+    return TupleV((n, None))
+
+
+INVOKE_STUBS[('*verif.sysrand', 'Read')] = _sysrand_read
+OPAQUE_IMPLEMENTS['*verif.sysrand'] = {'io.Reader'}
+from ..core import GLOBAL_INIT
+GLOBAL_INIT['crypto/rand.Reader'] = lambda I: Iface('*verif.sysrand', Ptr('sysrand'))
